@@ -307,16 +307,22 @@ def retry_ignore(sx, B):
     sx.claim([m.mol_name for m in top.molecules] == order, "molecule list unchanged")
 
 
+# a block copolymer whose residue numbering restarts in the second block: residues are told apart by (number, name)
+MOLTYPES_BM = dict(MOLTYPES, PR=[("A", ["a1", "a2"], 1), ("B", ["b1"], 2), ("D", ["a1", "a2"], 1), ("B", ["b1"], 3)])
+
+
 @condition("C04.backmap_flagged",
            anchors=["polyply.src.backmap:Backmap._place_init_coords", "polyply.src.backmap:Backmap.run_molecule"],
-           rejects=(), selector_only=True, must_cover=["mixed"],
+           rejects=(), selector_only=True, must_cover=["mixed", "residue numbers restart inside the molecule"],
            stubs=["backmap.orient_template -> returns the template unrotated (rotation is C06)"],
            bounds={"quick": dict(layouts=LAYOUTS_Q[:2]), "thorough": dict(layouts=LAYOUTS_T)})
 def backmap_flagged(sx, B):
     """Real Backmap.run_molecule with a solver-chosen backmap flag per residue: atoms of unflagged residues keep the identical
     position object, atoms of flagged residues are placed around exactly the residue position."""
-    layout = sx.sel("layout", B["layouts"])
-    top = topology_from_text(top_text(MOLTYPES, layout))
+    layout = sx.sel("layout", B["layouts"] + [[("PR", 1), ("S", 1)]])
+    if layout[0][0] == "PR":
+        sx.cover("residue numbers restart inside the molecule")
+    top = topology_from_text(top_text(MOLTYPES_BM, layout, atomtypes=("A", "B", "C", "S", "D")))
     k = 0
     flags = {}
     for mi, meta in enumerate(top.molecules):
